@@ -44,6 +44,7 @@ REQUIRED = {
         "mesh_elevated_by_library": 4, "mesh_elevated_by_harness": 10,
         "scale_band_tiny": 6, "scale_band_small": 3, "scale_band_unit": 6, "scale_band_big": 3, "scale_band_large": 6,
         "offset_over_h_ge_1e4": 6, "offset_over_h_ge_1e6": 2, "meshes_with_element_area_below_5e-11": 6,
+        "user_rule_same_size_as_library_rule": 8, "padded_rule1d_on_edges": 6,
         "quad2d_degree_1": 1, "quad2d_degree_2": 1, "quad2d_degree_3": 1, "quad2d_degree_4": 1, "quad2d_degree_5": 1, "quad2d_degree_6": 1,
         "quad2d_degree_7": 1, "quad2d_degree_8": 1, "quad2d_degree_9": 1, "quad2d_degree_10": 1,
         "rule1d_degrees_checked": 26, "rule1d_padded_degrees_checked": 10, "ref2d_rule_monomials": 200,
@@ -367,10 +368,25 @@ def run_mesh(case, res, rng):
     Uj = jnp.array(Unod)
     blocks = [mesh.blocks["A"], mesh.blocks["B"]]
 
+    # rules as objects: after the library's rule of a degree, a USER rule with the same number of points and the same degree
+    # of exactness (the library's points carried along by a symmetry of the reference triangle: other points / another order,
+    # same weights).  Every clause below works from the point table of the rule object actually handed to the library.
+    rule_list = []
+    user_done = False
     for D in case["qdegs"]:
+        rule_list.append((D, "library"))
+        if not user_done and D >= 2:
+            rule_list.append((D, ["reflected", "rotated"][int(case["seed"]) % 2]))
+            user_done = True
+    for D, variant in rule_list:
         quad = QuadratureRule.create_quadrature_rule_on_triangle(D)
+        if variant != "library":
+            xg = onp.asarray(quad.xigauss, dtype=float)
+            xg2 = xg[:, ::-1].copy() if variant == "reflected" else onp.column_stack([1.0 - xg[:, 0] - xg[:, 1], xg[:, 0]])
+            quad = QuadratureRule.QuadratureRule(jnp.array(xg2), quad.wgauss)
+            res.count("user_rule_same_size_as_library_rule")
         nq = len(quad)
-        det = dict(det0, quad_degree=D, nq=nq)
+        det = dict(det0, quad_degree=D, nq=nq, rule=variant)
         fs = FunctionSpace.construct_function_space(mesh, quad)
         fsa = FunctionSpace.construct_function_space(mesh, quad, mode2D="axisymmetric")
         res.count("quad2d_degree_%d" % D)
@@ -447,8 +463,17 @@ def run_mesh(case, res, rng):
     bnodes = onp.unique(segs)
     quadS = QuadratureRule.create_quadrature_rule_on_triangle(1)
     fs1 = FunctionSpace.construct_function_space(mesh, quadS)
+    q1list = []
+    padded_done = False
     for q1d in case["q1degs"]:
-        q1 = QuadratureRule.create_quadrature_rule_1D(q1d)
+        q1list.append((q1d, False))
+        if not padded_done and q1d <= 9:
+            q1list.append((q1d, True))      # the library's jit-able padded rule (always 5 entries) of the same degree
+            padded_done = True
+    for q1d, padded in q1list:
+        q1 = QuadratureRule.create_padded_quadrature_rule_1D(q1d) if padded else QuadratureRule.create_quadrature_rule_1D(q1d)
+        if padded:
+            res.count("padded_rule1d_on_edges")
         res.count("rule1d_on_edges_degrees_seen")
         res.obs["rule1d_on_edges_degree_%02d" % q1d] = 1
         low = monos(min(q1d, 5))
